@@ -11,14 +11,16 @@
   a PeerDown removes every entry of that peer.  `ribV m st key` is what `iter_reach` /
   `iter_reach_post` yield for that key.
 
-  Scope of the proved fragment (`caseOk`): insert / remove / soft reset IN (from any thread) /
-  import-policy change / session up / non-retaining session down / subscribe / unsubscribe.
-  The purge class (GR-retaining session end, `drop_stale_families`, `drop_families`,
-  `mark_llgr_stale`, `drop_llgr_stale_families`) is modelled and run against the real code, but
-  the property FAILS there (finding S28b): the full statement is `C18_full`, refuted below by a
-  concrete case.  The clause of the checker that judges a BMP connection (`BmpClient::serve`) is
-  excluded from the theorem by `noBmp` and backed by the correspondence run and the oracle on the
-  real connection only.
+  Scope of the master theorem: every operation of the case language on channel subscribers —
+  insert / remove / soft reset IN (from any thread) / import-policy change / session up with
+  `register_peer` / non-retaining session down / GR-retaining session down / the bulk purges
+  (`drop_stale_families`, `drop_families`, `mark_llgr_stale`, `drop_llgr_stale_families`; repaired:
+  they withdraw what they remove, S28b) / subscribe / unsubscribe.  A key the table holds as a
+  GR-retained (stale) route of an ended session is not judged (DESIGN §4.0: the subscriber was told
+  PeerDown for that session; retention is C10's subject).  The clauses of the checker that judge a
+  consumer task (`BmpClient::serve`, `MrtDumper::serve`, gRPC `watch_event`) are excluded from the
+  theorem by `noBmp` and backed by the correspondence run and the oracle on the real output only;
+  the full statement `C18_full` (every case, consumers included) is kept as a definition.
 
   The proofs are corollaries of `Rbgp.Monitor.Proofs` (the invariant `Inv` is preserved by every
   atomic step: `step_inv`) and `Rbgp.Monitor.ProofsRun`.
@@ -33,32 +35,51 @@ open Rbgp.Monitor
 def shardsOk (c : Case) : Bool := c.threads.all fun t => t.2.all fun o => match o with
   | .ins k _ _ _ => decide (k < c.n) | .rem k _ _ => decide (k < c.n) | _ => true
 
-/-- The full-strength statement: the reference checker accepts every run of every case. -/
+/-- The full-strength statement: the reference checker accepts every run of every case, the
+    consumer tasks (BMP connection, MRT dump, watch stream) included. -/
 def C18_full : Prop := ∀ c : Case, shardsOk c = true → Spec.check c (observe c (run c)) = .ok
 
-/-- The proved part.  For every case without operations of the purge class (`caseOk`) and without
-    BMP connections (`noBmp`) — any number of shards, sessions, subscribers, ANY schedule string,
-    at either granularity — the reference checker written from the property text accepts the
+/-- The proved part: every case without consumer tasks (`noBmp`) — any number of shards,
+    sessions, channel subscribers, ANY operations (the purge class included), ANY schedule string,
+    at either granularity.  The reference checker written from the property text accepts the
     observation of the model's run. -/
-theorem check_run_ok_partial (c : Case) (hc : caseOk c = true) (hb : noBmp c = true) :
+theorem check_run_ok (c : Case) (hc : caseOk c = true) (hb : noBmp c = true) :
     Spec.check c (observe c (run c)) = .ok :=
   check_run_ok_of_noBmp c hc hb
 
-/-- The purge class breaks the property (S28b): a session ends with GR negotiated (PeerDown is
-    sent, the routes are retained as stale), a subscriber then subscribes and gets the stale route
-    in its snapshot, `drop_stale_families` purges it without any event: the subscriber holds a
-    route the RIB no longer has.  Same case as the replay on the real code. -/
+/-- The case that refuted the property before the purges were repaired (S28b): a session ends with
+    GR negotiated (PeerDown is sent, the routes are retained as stale), a subscriber then subscribes
+    and gets the stale route in its snapshot, `drop_stale_families` purges it.  The subscriber now
+    receives the withdrawal: it holds nothing, like the table. -/
 def purgeWitness : Case :=
   { n := 1, gran := 0, limit := 0
     threads := [(true, [.up, .ins 0 0 0 5, .gdown, .purge]), (false, [.sub true])]
     sched := [0, 0, 0, 0, 0, 1, 1] }
 
-example : Spec.check purgeWitness (observe purgeWitness (run purgeWitness)) = .fail 0 0 "purge-pre-phantom" := by
-  decide
+example : caseOk purgeWitness = true ∧ noBmp purgeWitness = true := by decide
 
-theorem C18_full_fails : ¬ C18_full := fun h => by
-  have := h purgeWitness (by decide)
-  revert this; decide
+example : histPre ⟨0, 0, 0, 0⟩ ((run purgeWitness).queues 0) = [.val 10005, .wd] ∧
+    (run purgeWitness).rib ⟨0, 0, 0, 0⟩ = none := by decide
+
+/-- while the route is only retained (no purge yet) the table holds it as stale and the key is not
+    judged: the subscriber that saw the PeerDown holds nothing -/
+def retainWitness : Case :=
+  { n := 1, gran := 0, limit := 0
+    threads := [(true, [.up, .ins 0 0 0 5, .gdown]), (false, [.sub true])]
+    sched := [1, 1, 0, 0, 0, 0, 0] }
+
+example : (observe retainWitness (run retainWitness)).stale = [true] ∧
+    view false ⟨0, 0, 0, 0⟩ ((run retainWitness).queues 0) = none ∧
+    Spec.check retainWitness (observe retainWitness (run retainWitness)) = .ok := by decide
+
+/-- instances of the full statement with consumer tasks (not covered by the theorem): a BMP
+    connection, an MRT dump and a watch stream next to a purge -/
+def consumerWitness : Case :=
+  { n := 2, gran := 0, limit := 0
+    threads := [(true, [.up, .ins 0 0 0 5, .ins 1 2 0 6, .gdown, .up, .purge]), (false, [.bmp]), (false, [.mrt, .watch true false])]
+    sched := [0, 0, 0, 0, 0, 1, 1, 2, 2, 2, 0, 0, 1, 2, 0, 0, 0, 0] }
+
+example : Spec.check consumerWitness (observe consumerWitness (run consumerWitness)) = .ok := by decide
 
 /-- The invariant holds in every state reachable by any interleaving. -/
 theorem reachable_inv (c : Case) (hc : caseOk c = true) (st : St) (h : Reach c st) : Inv st :=
@@ -82,15 +103,17 @@ theorem compile_wf (n me : Nat) (ops : List Op) (h : ops.all (opOk n) = true) (f
 /-- For a registered subscriber `s` and a shard `k`:
     * after the snapshot step of `k`: for every key of the shard, `s` holds exactly what the table
       holds — unless the key's peer is being torn down and has already dropped this shard, in which
-      case the PeerDown that clears it is still to come;
+      case the PeerDown that clears it is still to come, or the table holds the key only as a
+      GR-retained stale route;
     * before it: the queue holds nothing of that shard but the live events since registration — a
       key no event touched is not held, and a key some event touched is held as the table holds it. -/
 theorem snapshot_invariant (c : Case) (hc : caseOk c = true) (st : St) (h : Reach c st)
     (s : Nat) (hs : s ∈ st.subscribers) (k : Nat) :
     (k ∈ st.done s → ∀ m key, key.shard = k →
-        view m key (st.queues s) = ribV m st key ∨ droppedShard st key) ∧
+        view m key (st.queues s) = ribV m st key ∨ droppedShard st key ∨ staleKey st key) ∧
     (k ∉ st.done s → ∀ m key, key.shard = k →
-        (touched m key (st.queues s) → view m key (st.queues s) = ribV m st key ∨ droppedShard st key) ∧
+        (touched m key (st.queues s) →
+          view m key (st.queues s) = ribV m st key ∨ droppedShard st key ∨ staleKey st key) ∧
         (¬ touched m key (st.queues s) → view m key (st.queues s) = none)) :=
   snapshot_inv (reach_inv hc h) hs k
 
@@ -98,21 +121,22 @@ theorem snapshot_invariant (c : Case) (hc : caseOk c = true) (st : St) (h : Reac
 
 /-- Whatever the interleaving and wherever in the history the subscription was made: once every
     thread has finished, a still-subscribed subscriber whose snapshot was completed holds, for
-    EVERY (peer, prefix, path-id), exactly the pre-policy (`m = false`) and the post-policy
+    EVERY (peer, prefix, path-id) the table does not hold as a GR-retained stale route (in particular
+    for every key the table does not hold at all), exactly the pre-policy (`m = false`) and the post-policy
     (`m = true`) Adj-RIB-In of the table.  In particular no update is missing from both the
     snapshot and the live stream, and nothing the table no longer has is still held. -/
 theorem reconstruct_exact (c : Case) (hc : caseOk c = true) (st : St) (h : Reach c st)
     (hq : quiescent st) (s : Nat) (hs : s ∈ st.subscribers) (hcomp : s ∈ st.complete)
-    (m : Bool) (key : Key) : view m key (st.queues s) = ribV m st key :=
-  reconstruct (reach_inv hc h) hq hs hcomp m key
+    (m : Bool) (key : Key) (hns : ¬ staleKey st key) : view m key (st.queues s) = ribV m st key :=
+  reconstruct (reach_inv hc h) hq hs hcomp m key hns
 
 /-- Per (peer, prefix, path-id), the last event delivered is the current state — also for a
     subscriber that asked for no snapshot: every key it ever received a route event for is held
     exactly as the table holds it. -/
 theorem last_event_is_current (c : Case) (hc : caseOk c = true) (st : St) (h : Reach c st)
     (hq : quiescent st) (s : Nat) (hs : s ∈ st.subscribers) (m : Bool) (key : Key)
-    (ht : touched m key (st.queues s)) : view m key (st.queues s) = ribV m st key :=
-  last_current (reach_inv hc h) hq hs m key ht
+    (ht : touched m key (st.queues s)) (hns : ¬ staleKey st key) : view m key (st.queues s) = ribV m st key :=
+  last_current (reach_inv hc h) hq hs m key ht hns
 
 /-! ## 3. The consumer side (bmp.rs) -/
 
@@ -218,8 +242,7 @@ example : (drainSnapshot [.pre ⟨0, 0, 0, 0⟩ (some 7), .down 0, .up 0, .eos] 
 
 end Rbgp.Monitor.Props
 
-#print axioms Rbgp.Monitor.Props.check_run_ok_partial
-#print axioms Rbgp.Monitor.Props.C18_full_fails
+#print axioms Rbgp.Monitor.Props.check_run_ok
 #print axioms Rbgp.Monitor.Props.reachable_inv
 #print axioms Rbgp.Monitor.Props.snapshot_invariant
 #print axioms Rbgp.Monitor.Props.reconstruct_exact
